@@ -21,18 +21,21 @@ check runs against, so the model follows the code and the theorems say which var
 namespace LyModel.XmlTree
 open LyModel
 
-/-- which of the two repairs of `xml_print_ns` the modelled source has -/
+/-- which of the repairs of `xml_print_ns` / `xml_print_opaq_open` the modelled source has -/
 structure Fixes where
   /-- a170b92: a suggested prefix that some entry of the stack binds is replaced by `prefix<k>` -/
   numbered : Bool
   /-- f1b607e: `xml_prefix_is_reserved` — prefixes the values of the opaque node need are used for nothing else in its start tag -/
   reserved : Bool
+  /-- F300: `xml_print_opaq_open` writes `xmlns=""` for an element in no namespace when a non-empty default namespace is in scope
+      (`xml_default_ns_in_scope`) -/
+  undeclare : Bool
   deriving Repr, DecidableEq, Inhabited
 
-def Fixes.all : Fixes := { numbered := true, reserved := true }
+def Fixes.all : Fixes := { numbered := true, reserved := true, undeclare := true }
 
 /-- the variant `tools/extractors/xmlns.py` found in the source tree the check runs against (what the driver prints with) -/
-def Fixes.current : Fixes := { numbered := Generated.xmlNsNumbered, reserved := Generated.xmlNsReserved }
+def Fixes.current : Fixes := { numbered := Generated.xmlNsNumbered, reserved := Generated.xmlNsReserved, undeclare := Generated.xmlNsUndeclare }
 
 /-- the (prefix, uri) pairs of the value prefix data of the opaque node being opened and of all its attributes
     (`pctx->opaq`; `[]` when no opaque start tag is being printed) -/
